@@ -79,3 +79,20 @@ def posOf : List Char → Nat → Nat × Nat
 def IsBoundary (s : List Char) (n : Nat) : Prop := ∃ i, i ≤ s.length ∧ n = utf8Len (s.take i)
 
 end AsModel.Runtime
+
+namespace AsModel.Runtime
+
+/-- Executable form of `IsBoundary` (used by the renderer-contract correspondence). -/
+def boundaryB : List Char → Nat → Bool
+  | [], n => n == 0
+  | c :: cs, n => n == 0 || (decide (c.utf8Size ≤ n) && boundaryB cs (n - c.utf8Size))
+
+/-- The observed precondition of the `annotate-snippets` 0.12 renderer for one annotation
+`a..b` over the text `s` (probed exhaustively on short texts, validated on every run):
+it does not panic iff `b` is at most one past the end of the text and every offset that
+lies inside the text is a character boundary. -/
+def rendererOk (s : List Char) (a b : Nat) : Bool :=
+  decide (b ≤ utf8Len s + 1) &&
+  (decide (utf8Len s < a) || boundaryB s a) && (decide (utf8Len s < b) || boundaryB s b)
+
+end AsModel.Runtime
